@@ -53,6 +53,9 @@ class Controller:
     self.errors = []
     self.timeout = 20.0
     self.shared = None        # forced mode: only events on these objects consume schedule steps
+    self.executed = []
+    self.unfaithful = False   # a forced run went on without a lock it needed (controller gave up): not an execution
+    self.blocked = set()      # forced mode, tail phase: threads waiting for a lock another thread holds
 
   # -- thread registration ----------------------------------------------------------
   def register(self, index):
@@ -65,18 +68,23 @@ class Controller:
   def done(self, index):
     with self.cv:
       self.finished.add(index)
+      self.blocked.discard(index)
       self.cv.notify_all()
 
   # -- the step protocol -----------------------------------------------------------------
   def _whose_turn(self):
     """Logical thread allowed to perform the next event (forced mode)."""
-    while self.pos < len(self.schedule) and self.schedule[self.pos] in self.finished:
-      self.pos += 1            # a finished thread cannot take its step: skip (recorded as mismatch)
-      self.errors.append('schedule step for a finished thread')
+    while self.pos < len(self.schedule) and (self.schedule[self.pos] in self.finished or
+                                             self.schedule[self.pos] in self.blocked):
+      # a finished thread, or one that waits for a lock another thread holds, cannot take its step:
+      # skip (recorded as a mismatch between the requested schedule and the real code)
+      self.errors.append('schedule step for a %s thread' % (
+          'finished' if self.schedule[self.pos] in self.finished else 'blocked'))
+      self.pos += 1
     if self.pos < len(self.schedule):
       return self.schedule[self.pos]
     for i in self.tail:
-      if i not in self.finished:
+      if i not in self.finished and i not in self.blocked:
         return i
     return None
 
@@ -102,6 +110,7 @@ class Controller:
       return
     self.logs[i].append(ev)
     if self.mode == 'forced':
+      self.executed.append(i)     # the complete schedule actually run (prefix + tail phase)
       with self.cv:
         if self.pos < len(self.schedule) and self.schedule[self.pos] == i:
           self.pos += 1
@@ -440,31 +449,101 @@ def canonical_list_names(logs):
   return init
 
 
+class SelfDeadlock(RuntimeError):
+  """A thread asked (blocking, without timeout) for a non-reentrant lock it already
+  holds.  On a real lock this blocks for ever; the proxy raises instead so that the
+  thread fails visibly (in record mode as well as under a forced schedule)."""
+
+
 class PLock:
-  """Wrapper around a real lock; acquire/release by registered threads are events."""
+  """Wrapper around a real lock; acquire/release by registered threads are events.
+
+  Reentrant locks: only the OUTERMOST acquire / release of a thread are events.  An inner
+  acquire by the holder can neither block nor change the holder, so it commutes with every
+  event of every other thread; folding it keeps a nested critical section one plain section
+  [acquire, ..., release] (which the lock-discipline reduction of the driver can compress) and
+  keeps the model's lock state a plain holder.  If the lock is NOT reentrant, the same inner
+  acquire is a self-deadlock and raises SelfDeadlock in the acquiring thread."""
 
   def __init__(self, name, real, reentrant=False):
     self._pname, self._real, self._reentrant = name, real, reentrant
+    self._owner, self._depth = None, 0     # maintained by the holder only
+    self._owner_idx = None                 # logical index of the holder (None: free / unregistered thread)
 
   def acquire(self, blocking=True, timeout=-1):
+    me = threading.get_ident()
+    if self._owner == me:
+      if self._reentrant:
+        got = self._real.acquire(blocking, timeout)
+        if got:
+          self._depth += 1
+        return got
+      if blocking and timeout == -1:
+        raise SelfDeadlock('self-deadlock: thread re-acquires the non-reentrant lock %s that it '
+                           'already holds' % self._pname)
     ev = Event(self._pname, 'acquire', None)
     i = CTL.begin(ev)
+    got = False
     try:
       if i is not None and not isinstance(i, tuple) and CTL.mode == 'forced':
         got = self._real.acquire(False)
+        while not got:
+          # The lock is held by another thread.  Whatever the requested schedule says, the execution
+          # must stay one the real code can perform: this thread gives its step up, lets the others
+          # run and retries when the lock has been released (in the prescribed prefix this is noted as
+          # a mismatch; in the tail phase, where threads simply run to completion, it is normal).
+          holder = self._owner_idx
+          with CTL.cv:
+            if CTL.pos < len(CTL.schedule):
+              CTL.errors.append('forced schedule grants an acquire of a held lock')
+            if holder is not None and holder in CTL.finished:
+              raise SelfDeadlock('deadlock: lock %s was left held by a thread that has finished' % self._pname)
+            CTL.blocked.add(i)
+            CTL.cv.notify_all()
+            ok = CTL.cv.wait_for(lambda: i not in CTL.blocked or
+                                 (self._owner_idx is not None and self._owner_idx in CTL.finished),
+                                 timeout=CTL.timeout)
+            CTL.blocked.discard(i)
+          if not ok:
+            CTL.errors.append('thread %d starved waiting for lock %s' % (i, self._pname))
+            break
+          with CTL.cv:
+            CTL.cv.wait_for(lambda: CTL._whose_turn() in (i, None), timeout=CTL.timeout)
+          got = self._real.acquire(False)
         if not got:
-          CTL.errors.append('forced schedule grants an acquire of a held lock')
           got = self._real.acquire(True, 5)
+          if not got:
+            CTL.unfaithful = True
         return got
-      return self._real.acquire(blocking, timeout)
+      if i is not None and CTL.mode == 'record' and blocking and timeout == -1:
+        # solo recording: one program thread runs at a time, so a lock that is not free now is held
+        # by a thread that has finished (it will never be released): fail instead of hanging
+        got = self._real.acquire(False)
+        if not got:
+          raise SelfDeadlock('deadlock: lock %s was left held by a thread that has finished' % self._pname)
+        return got
+      got = self._real.acquire(blocking, timeout)
+      return got
     finally:
+      if got:
+        self._owner, self._depth = me, 1
+        self._owner_idx = CTL.me()
       CTL.end(i, ev)
 
   def release(self):
+    if self._reentrant and self._owner == threading.get_ident() and self._depth > 1:
+      self._depth -= 1
+      self._real.release()
+      return
     ev = Event(self._pname, 'release', None)
     i = CTL.begin(ev)
     try:
+      self._owner, self._depth, self._owner_idx = None, 0, None
       self._real.release()
+      if CTL.blocked:
+        with CTL.cv:
+          CTL.blocked.clear()       # waiters retry (in tail order)
+          CTL.cv.notify_all()
     finally:
       CTL.end(i, ev)
 
@@ -488,10 +567,27 @@ def external(name, key=None):
   CTL.end(i, ev)
 
 
+EXTERNAL_DICTS = []
+
+
+def external_dict(name):
+  """A harness-owned shared cell store (for example "this constructor has not failed yet") whose
+  accesses are events like those of Gin's own dicts.  Object name 'external:<name>'; its contents
+  right after setup() and at the end of a run are part of the dumped state (driver._dump)."""
+  d = PDict('external:' + name)
+  EXTERNAL_DICTS.append(d)
+  return d
+
+
 def install(module):
-  """Replaces every module-level dict / lock of `module` (and the dicts inside
-  module-level SelectorMap-like instances) by a proxy.  Returns an undo function
-  and the list of names that were wrapped (reported in the evidence)."""
+  """Replaces every module-level dict / Lock / RLock of `module` by a proxy (dict values that
+  are themselves plain dicts become child proxies named parent[key]).  Returns an undo function
+  and the list of names that were wrapped (reported in the evidence).
+
+  NOT wrapped, hence invisible to the engine: module-level lists and sets (gin.config:
+  _PARSE_CONTEXTS, _IMPORTS, _FINALIZE_HOOKS ...), instances such as SelectorMap (_REGISTRY,
+  _CONSTANTS) and the dicts inside them, locks created at run time.  The scope stacks are
+  covered separately by tap_instance_lists."""
   saved = {}
   names = []
   for name, val in list(vars(module).items()):
